@@ -27,6 +27,13 @@ class IArray(list):
     """np.array of Python ints"""
 
 
+class Unsupported:
+    """value of a module-level name whose right-hand side is outside the literal sub-language
+    (e.g. IAPWS97.psat_critical = max(pcritical, sat(tcritical))).  Binding it is harmless;
+    USING it -- directly or through another name -- is refused."""
+    def __init__(self, why): self.why = why
+
+
 def _num(v):
     return isinstance(v, (int, float)) and not isinstance(v, bool)
 
@@ -67,7 +74,11 @@ class Tables:
         if isinstance(st, ast.Assign):
             if len(st.targets) != 1: self.fail(st, 'chained assignment')
             tgt = st.targets[0]
-            val = self.expr(st.value)
+            try:
+                val = self.expr(st.value)
+            except Refusal as e:
+                val = Unsupported(str(e))
+                if isinstance(tgt, ast.Tuple): val = tuple(val for _ in tgt.elts)
             if isinstance(tgt, ast.Name):
                 self.bind(tgt.id, val, st)
             elif isinstance(tgt, ast.Tuple) and all(isinstance(e, ast.Name) for e in tgt.elts):
@@ -105,7 +116,10 @@ class Tables:
             except (ZeroDivisionError, OverflowError) as ex:
                 self.fail(e, 'arithmetic error %r' % ex)
         if isinstance(e, ast.Name):
-            if e.id in self.env: return self.env[e.id]
+            if e.id in self.env:
+                if isinstance(self.env[e.id], Unsupported):
+                    self.fail(e, 'name %s is bound to an unsupported expression (%s)' % (e.id, self.env[e.id].why))
+                return self.env[e.id]
             self.fail(e, 'name %s is not bound to a literal earlier in the module' % e.id)
         if isinstance(e, (ast.Tuple, ast.List)):
             vals = tuple(self.expr(x) for x in e.elts)
@@ -149,6 +163,7 @@ class Tables:
     # ---- typed access (fail closed on a shape change) --------------------
     def scalar(self, name):
         v = self.env.get(name)
+        if isinstance(v, Unsupported): raise Refusal('%s: `%s` is not a literal: %s' % (self.path, name, v.why))
         if not _num(v): raise Refusal('%s: expected a numeric scalar `%s`, found %s' % (self.path, name, type(v).__name__))
         return float(v)
 
